@@ -200,6 +200,22 @@ def parseInternal (elem : Elem) (cur : Nat) (s : Bytes) (i : Nat) : (Res Obj × 
     else if !(isDigit c || c == 45 || c == 43 || c == 46) then ((.err .guard, i), cur)
     else (numberOrRef s i, cur)
 
+/-- `PDFObjP::parse`: optional whitespace, then `parse_internal`; the value is located from the
+    first byte after the whitespace.  `cur1` is the context depth inside the wrapper. -/
+def objParse (el : Elem) (cur1 : Nat) (s : Bytes) (i : Nat) : R × Nat :=
+  match wsEOL true s i with
+  | (.err k, j) => ((.err k, j), cur1)
+  | (.panic p, j) => ((.panic p, j), cur1)
+  | (.ok _, start) =>
+    match parseInternal el cur1 s start with
+    | ((.ok v, j), c) => ((.ok ⟨v, start, j⟩, j), c)
+    | ((.err k, j), c) => ((.err k, j), c)
+    | ((.panic p, j), c) => ((.panic p, j), c)
+
+/-- `leave_obj()`: `assert!(cur_depth != 0); cur_depth -= 1` -/
+def leaveObj : R × Nat → R × Nat
+  | (r, cur2) => if cur2 == 0 then ((.panic "leave_obj: assert", r.2), cur2) else (r, cur2 - 1)
+
 /-- `parse_pdf_obj` (the depth wrapper around `PDFObjP::parse`).
     `b` is the nesting budget; `cur`/`max` are the context's depth fields. -/
 def parseObjB (max : Nat) : Nat → Elem
@@ -208,19 +224,7 @@ def parseObjB (max : Nat) : Nat → Elem
     else
       match b with
       | 0 => ((.panic "parse_pdf_obj: budget", i), cur)
-      | b + 1 =>
-        let cur1 := cur + 1                              -- enter_obj()
-        let (r, cur2) : R × Nat :=
-          match wsEOL true s i with
-          | (.err k, j) => ((.err k, j), cur1)
-          | (.panic p, j) => ((.panic p, j), cur1)
-          | (.ok _, start) =>
-            match parseInternal (parseObjB max b) cur1 s start with
-            | ((.ok v, j), c) => ((.ok ⟨v, start, j⟩, j), c)
-            | ((.err k, j), c) => ((.err k, j), c)
-            | ((.panic p, j), c) => ((.panic p, j), c)
-        -- leave_obj(): assert!(cur_depth != 0)
-        if cur2 == 0 then ((.panic "leave_obj: assert", r.2), cur2) else (r, cur2 - 1)
+      | b + 1 => leaveObj (objParse (parseObjB max b) (cur + 1) s i)   -- enter_obj(); parse; leave_obj()
 
 /-- The context fields the object parser reads and writes. -/
 structure Depth where
